@@ -56,7 +56,9 @@ import random as _random
 _R = _random.Random(20260926)
 TEXT_POOL = [None, '', ' ', 'plain', 'two words', '  padded  ', 'a&b', 'x<y>z', '"quoted"', "it's",
              'é中文', 'line1\nline2', '\ttab', ']]>', '&amp;', '<tag>', '0', 'None', '(b)', 'ünï',
-             ' sep', 'emoji \U0001F600', 'a' * 40, '--', '<!-- c -->', '<?pi?>', ' \n ']
+             ' sep', 'emoji \U0001F600', 'a' * 40, '--', '<!-- c -->', '<?pi?>', ' \n ',
+             # DEL and C1 controls are legal XML 1.0 characters (cp1252 / latin-1 mix-ups, NEL)
+             'del\x7f', '\x93quoted\x94', 'next\x85line']
 ATTR_NAMES = ['type', 'id', 'lang', 'x']
 
 
@@ -85,7 +87,8 @@ _DECOYS = [
                                                  ('itemSlug', {}, 'nested', [], None)], None)], None),
     ('wrapper', {}, None, [('p', {}, 'nested paragraph', [], None), ('p', {}, '(nested note)', [], 't')], None),
     ('mosExternalMetadata2', {}, None, [('mosPayload', {}, None, [
-        ('story', {}, None, [('storyID', {}, 'NESTED-STORY', [], None)], None),
+        ('story', {}, None, [('storyID', {}, 'NESTED-STORY', [], None), ('p', {}, 'text of a nested story', [], None),
+                             ('item', {}, None, [('itemID', {}, 'NESTED-STORY-ITEM', [], None)], None)], None),
         ('storyItem', {}, None, [('itemID', {}, 'NESTED-SI', [], None)], None)], None)], None),
     ('custom', {'type': 'note'}, 'x', [('storyID', {}, 'S0', [], None), ('itemID', {}, 'I0', [], None),
                                         ('studioCommand', {'type': 'note'}, None, [('text', {}, 'decoy', [], None)], None)], None),
@@ -138,6 +141,7 @@ TIME_TEXTS = ['2020-01-01T12:30:00', '2021-06-30T23:59:59', '1999-12-31T00:00:01
               # other ISO 8601 spellings: blank instead of 'T', decimal comma (the MOS schema's own form),
               # basic format, date only, more than six fraction digits
               '2020-01-01 12:30:00', '2020-01-01T12:30:00,250', '20200101T123000', '2020-01-01',
+              ' 2020-01-01T12:30:00 ', '\n      2021-06-30T23:59:59\n    ',
               '2020-01-01T12:30:00.123456789']
 TIMES = st.sampled_from(TIME_TEXTS)
 
@@ -160,6 +164,12 @@ def _timing_variants():
             items = list(f.items())
             _R.shuffle(items)
             timed.append((shape, dict(items)))
+    # present-but-empty tags: the field exists, the newsroom system has not filled it in
+    untimed += [('empty-tags', {'StoryDuration': None}), ('empty-tags', {'TextTime': None, 'MediaTime': None})]
+    timed += [('empty-tags', {'StoryDuration': None, 'TextTime': '2', 'MediaTime': '3'}),
+              ('empty-tags', {'TextTime': None, 'MediaTime': '3'}),
+              ('empty-tags', {'StoryDuration': '4', 'StoryStarted': None}),
+              ('empty-tags', {'StoryDuration': '4', 'StoryEnded': None, 'StoryStarted': '2020-01-01T12:30:00'})]
     return timed, untimed
 
 
@@ -189,7 +199,7 @@ def _item_variants():
         out.append(dict(
             slug=_R.choice([None, 'slug', _rand_text()]), obj_id=_R.choice([None, 'OBJ1']),
             mos_id=_R.choice([None, 'mos.id']), obj_type=_R.choice([None, 'VIDEO']),
-            note=_R.choice([None, None, ('note', 'a note'), ('note', ''), ('nested', 'n&n'),
+            note=_R.choice([None, None, ('note', 'a note'), ('note', ''), ('nested', 'n&n'), ('untyped-first', 'typed note'),
                             ('other', 'cue'), ('empty', '')]),
             extras=[_R.choice(GENERIC_SPECS[1])] if _R.randrange(3) == 0 else [],
             id_first=_R.randrange(5) > 0, attrib=_R.choice([None, None, None, {'x': 'a"b'}])))
@@ -232,6 +242,8 @@ def _shell_variants():
             p_tail=_R.choice([None] * 6 + ['stray text after p', ' (tail) ']),
             second_md=_R.choice([None] * 5 + ['no-timing', 'no-payload']),
             item_tail=_R.choice([None] * 6 + ['text after an item', '-']),
+            lead_text=_R.choice([None] * 7 + ['text before the first child']),
+            si_decoy=_R.choice([None] * 6 + ['storyItem', 'ns-item']),
             story_tail=_R.choice([None] * 8 + ['text after a story']),
             odd=_R.choice([None, None, None] + GENERIC_SPECS[1][:6])))
     return out
@@ -286,6 +298,17 @@ def story(draw, sid, iids, rich=True, timing_mode='any', for_send=False):
         for i, c in enumerate(s):
             if i % 2 == 0:
                 c.tail = v['tails']
+    if v.get('lead_text'):
+        s.text = v['lead_text']
+    if v.get('si_decoy') and not for_send:
+        # directly inside the story, ahead of a real item and with ITS itemID: an element that is not
+        # an <item> - the roStorySend spelling <storyItem>, or <item> in a foreign namespace
+        its_ = [c for c in s if c.tag == 'item']
+        if its_:
+            real = its_[-1]
+            tag = 'storyItem' if v['si_decoy'] == 'storyItem' else '{urn:other-vendor}item'
+            idt = 'itemID' if v['si_decoy'] == 'storyItem' else '{urn:other-vendor}itemID'
+            s.insert(list(s).index(its_[0]), E(tag, E(idt, text=real.findtext('itemID')), T('itemSlug', 'not an item')))
     if v.get('item_tail'):
         its_ = [c for c in s if c.tag in ('item', 'storyItem')]
         if its_:
@@ -351,6 +374,20 @@ def ro_metadata(draw, n_md):
     return out
 
 
+def _twin(x, kind):
+    import unicodedata
+    if kind == 0:
+        d = unicodedata.normalize('NFD', x)
+        if d != x:
+            return d
+        return x + 'e\u0301' if not x.endswith('\u00e9') else x[:-1] + 'e\u0301'
+    if kind == 1:
+        return x[:1] + '\u200b' + x[1:]          # zero-width space
+    if kind == 2:
+        return x + '\u00ad'                      # soft hyphen
+    return '\ufeff' + x                          # zero-width no-break space
+
+
 @st.composite
 def running_order(draw, min_stories=0, max_stories=6, max_items=4, rich=True,
                   timing_mode='any', simple_ids=False, ro_id=None, allow_no_slug=False, blank_ids=False):
@@ -370,6 +407,21 @@ def running_order(draw, min_stories=0, max_stories=6, max_items=4, rich=True,
         # genuinely random XML-legal text and attribute value somewhere in the document
         stories[draw(st.integers(0, len(stories) - 1))].append(
             E('p', text=draw(text), attrib={'r': draw(text)}))
+    if rich and not simple_ids and draw(st.integers(0, 7)) == 0:
+        # "twin" IDs: another story (or another item of the same story) whose ID is a DIFFERENT string
+        # that only looks the same - canonically equivalent Unicode, an invisible format character
+        kind_ = draw(st.integers(0, 3))
+        pairs_ = [(stories, 'storyID')] + [([c for c in s_ if c.tag == 'item'], 'itemID') for s_ in stories]
+        pairs_ = [(els, tag) for els, tag in pairs_ if len(els) >= 2]
+        if pairs_:
+            els, tag = pairs_[draw(st.integers(0, len(pairs_) - 1))]
+            a = els[draw(st.integers(0, len(els) - 2))]
+            b = els[-1]
+            base_ = a.findtext(tag)
+            if base_ and b is not a and b.find(tag) is not None:
+                tw = _twin(base_, kind_)
+                if tw != base_ and tw not in [e.findtext(tag) for e in els]:
+                    b.find(tag).text = tw
     if blank_ids and rich and len(stories) >= 2 and draw(st.integers(0, 9)) == 0:
         # one story, or one item, whose ID tag is EMPTY: an element no reference can name
         victim = stories[draw(st.integers(0, len(stories) - 1))]
@@ -384,12 +436,23 @@ def running_order(draw, min_stories=0, max_stories=6, max_items=4, rich=True,
     children = list(stories)
     for m in md:
         children.insert(draw(st.integers(0, len(children))), m)
+    if rich and stories and draw(st.integers(0, 9)) == 0:
+        # running-order level metadata in a foreign namespace whose LOCAL name is 'story', carrying the
+        # ID of a real story and placed ahead of it
+        k_ = draw(st.integers(0, len(stories) - 1))
+        ns_ = '{urn:other-vendor}'
+        children.insert(children.index(stories[k_]),
+                        E(ns_ + 'story', E(ns_ + 'storyID', text=stories[k_].findtext('storyID')),
+                          E(ns_ + 'storySlug', text='archived version'), E('storyID', text='NESTED-IN-NS')))
     ro_id = ro_id or draw(st.sampled_from(['RO1', 'RO ID', 'ro;1&2']))
-    ed = draw(st.sampled_from([None, '', '2020-01-01T12:30:00', '2021-03-04T05:06:07.5']))
+    ed = draw(st.sampled_from([None, '', '2020-01-01T12:30:00', '2021-03-04T05:06:07.5', ' 2020-01-01T12:30:00 ',
+                               '\n      2021-03-04T05:06:07\n    ']))
     slug = draw(st.sampled_from(['RO SLUG', 'slug & <co>']))
     if allow_no_slug and draw(st.integers(0, 7)) == 0:
         slug = None                      # merges do not need the slug
     rc = B.ro_create(ro_id, children, slug=slug, ed_start=ed)
+    if rich and draw(st.integers(0, 9)) == 0:
+        rc.text = 'text directly inside roCreate'
     mid = draw(st.integers(1, 5000))
     order = None
     extras = []
@@ -582,6 +645,10 @@ def message(draw, state, ro_id, kinds=B.ALL_KINDS, faults='some', rich=True, mid
     elif kind == 'roMetadataReplace':
         n = draw(st.integers(0, 3))
         kids = draw(ro_metadata(n))
+        if draw(st.integers(0, 2)) == 0:
+            # the documented use: new running-order start / duration fields
+            ed_ = draw(st.sampled_from(['2022-02-02T02:02:02', '2020-01-01T12:30:00', '', '2021-03-04T05:06:07.5']))
+            kids.insert(draw(st.integers(0, len(kids))), T('roEdStart', ed_ or None))
         body = B.metadata_replace(ro_id, kids, slug=draw(st.sampled_from(['RO SLUG', 'new slug'])))
     elif kind == 'roReplace':
         inner = draw(running_order(max_stories=4, max_items=3, rich=rich, ro_id=ro_id,
@@ -591,6 +658,8 @@ def message(draw, state, ro_id, kinds=B.ALL_KINDS, faults='some', rich=True, mid
         rc.tag = 'roReplace'
         if rich and draw(st.integers(0, 2)) == 0:
             rc.attrib['version'] = draw(st.sampled_from(TEXT_POOL)) or 'v'
+        if rich and draw(st.integers(0, 4)) == 0:
+            rc.text = 'text directly inside roReplace'      # mixed content before the first child
         body = rc
     elif kind == 'roReadyToAir':
         body = B.ready_to_air(ro_id)
@@ -699,7 +768,7 @@ def step_case(draw, kinds=B.ALL_KINDS, faults='some', rich=True, min_stories=0,
 
 # --------------------------------------------------------------- enumerators
 
-LAYOUTS = ['none', 'before', 'between', 'after', 'mixed', 'anon']
+LAYOUTS = ['none', 'before', 'between', 'after', 'mixed', 'anon', 'twins']
 
 
 def plain_story(sid, iids=(), timed=True):
@@ -720,6 +789,13 @@ def ro_with_layout(sids, layout, ro_id='RO1', mid=1000, items_for=None):
         anon.findall('item')[1].find('itemID').text = None
         stories.insert(min(1, len(stories)), anon)
     md = lambda i: T(f'roMeta{i}', f'm{i}')  # noqa: E731
+    if layout == 'twins' and sids:
+        # 'mixed' plus, AHEAD of the real ones: stories whose IDs only look like the last story's ID
+        # (zero-width space, soft hyphen, other case), and a foreign-namespace <story> carrying that very ID
+        last = sids[-1]
+        ns_ = '{urn:other-vendor}'
+        look = [plain_story(_twin(last, 1), ['I0']), plain_story(_twin(last, 2)), plain_story(last.lower() + ' ')]
+        stories = look + [E(ns_ + 'story', E(ns_ + 'storyID', text=last), E(ns_ + 'storySlug', text='not a story'))] + stories
     if layout == 'none':
         ch = stories
     elif layout == 'before':
